@@ -369,7 +369,10 @@ impl StoryState {
             list.origins.borrow_mut().clear();
 
             for name in &origin_names {
-                let def = self.list_definitions.get_list_definition(name).unwrap();
+                // A list the story file does not declare contributes no origin.
+                let Some(def) = self.list_definitions.get_list_definition(name) else {
+                    continue;
+                };
                 if !list.origins.borrow().iter().any(|e| std::ptr::eq(e, def)) {
                     list.origins.borrow_mut().push(def.clone());
                 }
